@@ -46,6 +46,12 @@ FAMILIES = {
     'bind-then-deep': [('dummy', [], 'tru')],
     # answers of very different depth: the projection overflows on a deep one, later ones are shallow again
     'varying-depth': [('dummy', [], 'tru')],
+    # a finite, shallow search with more than ten thousand answers
+    'many-answers': [('dd', [('N', str(k_))], 'tru') for k_ in range(23)] +
+                    [('m3', [V('X'), V('Y'), V('Z')], ('conj', ('call', 'dd', [V('X')]), ('conj', ('call', 'dd', [V('Y')]), ('call', 'dd', [V('Z')]))), True)],
+    # the copy findall makes of its template is cut off by the limit: nothing of it stays behind
+    'findall-template': [('ok', [], 'tru'),
+                         ('ft', [V('Y'), V('L')], ('call', 'findall', [('F', 'f', [V('Y'), _nest('s', 72, ('A', 'z'))]), ('A', 'ok'), V('L')]), True)],
     'mixed': [('mixed', [('A', 'a')], 'tru'), ('mixed', [('A', 'b')], 'tru'), ('mixed', [V('X')], ('call', 'mixed2', [V('X')]), True),
               ('mixed2', [V('X')], ('call', 'mixed2', [('F', 'f', [V('X')])]), True)],
 }
@@ -142,6 +148,12 @@ def _case(rep, drv, rnd, i, tier):
             name, args = 'vd', [[Sym('v'), 0]]
             dyn = [('assert', 'vd', 'z', [[Sym('i'), n_]]) for n_ in (3, 1, rnd.choice([400, 900]), 2, 5)]
             limit = rnd.randint(100, 350)
+        elif fam == 'many-answers':
+            name, args = 'm3', [[Sym('v'), 0], [Sym('v'), 1], [Sym('v'), 2]]
+            limit = rnd.choice([600, 900])
+            shallow = True
+        elif fam == 'findall-template':
+            name, args = 'ft', [[Sym('v'), 0], [Sym('v'), 1]]
         elif fam == 'probe':
             name, args = 'pd', [[Sym('v'), 0]]
         elif fam == 'probe2':
@@ -163,7 +175,7 @@ def _case(rep, drv, rnd, i, tier):
     for d in dyn:
         R.run_op(eng, d)
     before_bound = R.bound_count()
-    if fam == 'bind-then-deep':
+    if fam in ('bind-then-deep', 'findall-template'):
         # where exactly the limit strikes depends on the limit: every limit of a window is tried
         lo = rnd.randint(60, 120)
         for lim in range(lo, lo + 260):
